@@ -23,10 +23,17 @@ rule("C10.j", "no result of a method is memoised (lru_cache / cache / cached_pro
 rule("C09.h", "a loop over the assets of a portfolio reads nothing from the shared grid cache that a previous pass of the loop (the set-up of "
               "the asset before) may have left there: otherwise the result depends on the order of the assets", floor=1)
 rule("C16.h", "a wrapper (scaled / structured / linked asset) reads the shared grid cache only after re-establishing it for itself, "
-              "i.e. after the wrapped set-up has overwritten it", floor=2)
+              "i.e. after the wrapped set-up has overwritten it (the wrapper's own window - clipped to the horizon - decides what it adds, "
+              "e.g. the duration its fix costs count for, not the window of what it wraps)", floor=2, props=["C16", "C08"])
+rule("C05.r", "the reported fill level is computed on the storage's own window: Storage.fill_level is public (the report calls it, users call it) "
+              "and (re-)establishes the shared grid's cache for its asset before it reads restricted.I / .dt - it does not rely on a caller to "
+              "have done so (the cache belongs to whichever asset was set up last: inflow would be accumulated over another asset's window)",
+     floor=1)
 rule("C17.i", "the cost vector a set-up returns under costs_only (the samples of the robust / stochastic targets) is computed from the grid "
               "cache of *this* asset: the cache is (re-)established before the costs_only return reads it", floor=0)
-rule("C10.c", "discount factors are created before the sub-grid that copies them, and every sub-grid branch copies them", floor=3)
+rule("C10.c", "discount factors are created - unconditionally, with the asset's own wacc - before the sub-grid that copies them, and every sub-grid "
+              "branch copies them (each asset's cash flows are discounted with its own rate, whatever asset used the shared grid before)", floor=3,
+     props=["C10", "C02"])
 rule("C10.g", "the primitives that establish the shared grid cache for an asset (Timegrid.set_wacc, Timegrid.set_restricted_grid) "
               "write it on every path: no shortcut leaves the previous asset's discount factors / sub-grid in place", floor=2,
      props=["C10", "C09", "C08"])
@@ -188,7 +195,7 @@ def must_assign(fn) -> frozenset:
     return out if out is not None else frozenset()
 
 
-@analysis("gridcache", ["C10.b", "C10.c", "C16.h", "C10.g", "C17.i", "C09.h", "C10.j"])
+@analysis("gridcache", ["C10.b", "C10.c", "C16.h", "C10.g", "C17.i", "C09.h", "C10.j", "C05.r"])
 def run(ctx):
     p = ctx.p
     an = CacheAnalysis(ctx)
@@ -215,12 +222,20 @@ def run(ctx):
                        "every read of the cache is dominated by an establishment for this asset", trivial=not reads_any)
                 if ci.name in WRAPPERS and mname == "setup_optim_problem":
                     ctx.ob("C16.h", fn, "grid cache read before (re-)establishment", True, trivial=not reads_any)
+                if mname == "fill_level" and fn.cls is not None and fn.cls.name == "Storage":
+                    ctx.ob("C05.r", fn, "grid cache read before (re-)establishment", True, trivial=not reads_any)
                 continue
             detail = "; ".join("%s%s" % (p.where(n), (" (in helper %s)" % via.qualname) if via is not None else "") for n, via in sites[:6])
             ctx.ob("C10.b", fn, "grid cache read before (re-)establishment", False,
                    "self.timegrid.restricted / .discount_factors belong to whichever asset set the shared grid last; here they "
                    "are read on a path on which this asset has not (re-)established them (documented timegrid=None path, or "
                    "after another asset's set-up): " + detail, node=sites[0][0])
+            if mname == "fill_level" and fn.cls is not None and fn.cls.name == "Storage":
+                ctx.ob("C05.r", fn, "grid cache read before (re-)establishment", False,
+                       "fill_level reads the window / step lengths of the shared grid without (re-)establishing them for the storage: " + detail +
+                       " - called directly (public API) after a portfolio set-up it sees the window of the asset that was set up last; a storage with "
+                       "inflow that is active on two of three days next to a contract over the whole horizon is reported with a level of up to 42 for a "
+                       "size of 30", node=sites[0][0])
             in_costs_only = [n for n, via in sites if any(isinstance(a, ast.If) and "costs_only" in au.names_in(a.test) for a in p.ancestors(n))]
             if in_costs_only and mname == "setup_optim_problem":
                 ctx.ob("C17.i", fn, "grid cache read on the costs_only path", False,
